@@ -49,6 +49,7 @@ fn main() {
         "c13" => c11::run(&cases, &out, &tier, seed, "c13"),
         "c02" => c02::run(&cases, &out, &tier, seed),
         "c04" => c04::supervise(&cases, &out, &tier, seed),
+        "dbg04" => c04::dbg(&cases, &arg(&args, "--carrier", "skesk_v5"), &arg(&args, "--cont", "gnupg_aead")),
         "c04w" => {
             let resume = arg(&args, "--resume", "/nonexistent");
             let only = arg(&args, "--only", "");
